@@ -112,7 +112,9 @@ func headerCases() [][][2]string {
 		}
 		out = append(out, append([][2]string{{"Accept", "*/*"}}, hs...))
 		// the client names forwarding headers as hop-by-hop
-		for _, n := range append(append([]string{}, fwdNames...), "X-Forwarded-Server", "X-Forwarded-Host, X-Real-Ip, X-Forwarded-Proto") {
+		for _, n := range append(append([]string{}, fwdNames...), "X-Forwarded-Server", "X-Forwarded-Host, X-Real-Ip, X-Forwarded-Proto",
+			// list elements set off by horizontal tabs (the optional whitespace of a list may be a tab as well as a blank)
+			"close,\tX-Real-Ip", "X-Forwarded-For\t, close", "X-Forwarded-Host,\tX-Forwarded-Proto\t,\tX-Forwarded-Port") {
 			out = append(out, append([][2]string{{"Connection", n}}, hs...))
 		}
 	}
